@@ -519,8 +519,11 @@ func (c *Ctx) c02Stores() {
 		if w, ok := eng.Unwrap(cp.Call.Args[0]).(*ssa.Call); ok && eng.CalleeName(w.Common()) == "bufio.NewWriter" {
 			if e, ok := eng.Unwrap(w.Call.Args[0]).(*ssa.Extract); ok {
 				if cr, ok := e.Tuple.(*ssa.Call); ok && eng.CalleeName(cr.Common()) == "os.Create" {
-					if rc, ok := cr.Call.Args[0].(*ssa.Call); ok && eng.StaticCallee(rc.Common()) == rawPath {
+					if rc, ok := eng.Unwrap(cr.Call.Args[0]).(*ssa.Call); ok && eng.StaticCallee(rc.Common()) == rawPath {
 						wOK = true
+					}
+					if fm := c.fsModel(); fm != nil && fm.pathClass(cr.Call.Args[0], 0) == "raw" {
+						wOK = true // through a local variable (also when captured by a cleanup closure)
 					}
 				}
 			}
